@@ -445,6 +445,9 @@ def hyp_cases(draw, tier):
 RULE_ROUND8 = ' One generated forest in 20 (60 in the thorough tier) is a BIG one (gen.big_specs: a child list of 11..300 nodes, that many clones of one data object, more than 256 nodes), with node references aimed at notable positions of the long child lists. (width <= 130 in the mutate-export part). to_dotfile(<path>) also onto an existing, longer file.'
 RULE = RULE + RULE_ROUND8
 
+RULE_ROUND9 = " tree.system_root.to_rdf_graph(add_self=False) = the tree's triples without the root's."
+RULE = RULE + RULE_ROUND9
+
 PARTS = [
     Part("exports", run, strategy=lambda tier: hyp_cases(tier), n={"quick": 1500, "thorough": 150000}),
     Part("export-mutate-export", run_requery, strategy=lambda tier: requery_cases(tier), n={"quick": 300, "thorough": 20000}),
